@@ -77,9 +77,9 @@ Proof.
     (destruct (Grouping e) as [|x [|y r]]; [discriminate Hg | reflexivity | discriminate Hg]).
 Qed.
 
-Lemma build_encode_decode_comcast e : cons_comcast e ->
+Lemma build_encode_decode_comcast g e : cons_comcast e ->
   ComcastData e = (169 :: len (comcast_body e) :: comcast_body e, set_DataFieldLength e (len (comcast_body e)))
-  /\ ReadEncoderBoundaryPoint false (fst (ComcastData e)) = Ok (Comcast, canon_comcast e).
+  /\ ReadEncoderBoundaryPoint g (fst (ComcastData e)) = Ok (Comcast, canon_comcast e).
 Proof.
   intro C. assert (D : ComcastData e = (169 :: len (comcast_body e) :: comcast_body e, set_DataFieldLength e (len (comcast_body e)))).
   { destruct C as (Htag & HL & _ & _ & _ & _ & _ & _ & _ & _ & Hlen).
@@ -218,9 +218,9 @@ Proof.
   - destruct (SapFlag e), (TimeFlag e); reflexivity.
 Qed.
 
-Lemma build_encode_decode_cablelabs e : cons_cablelabs e ->
+Lemma build_encode_decode_cablelabs g e : cons_cablelabs e ->
   CableLabsData e = (223 :: len (cablelabs_body e) :: cablelabs_body e, set_DataFieldLength e (len (cablelabs_body e)))
-  /\ ReadEncoderBoundaryPoint false (fst (CableLabsData e)) = Ok (CableLabs, canon_cablelabs e).
+  /\ ReadEncoderBoundaryPoint g (fst (CableLabsData e)) = Ok (CableLabs, canon_cablelabs e).
 Proof.
   intro C. assert (D : CableLabsData e = (223 :: len (cablelabs_body e) :: cablelabs_body e, set_DataFieldLength e (len (cablelabs_body e)))).
   { destruct C as (Htag & HL & _ & _ & _ & _ & _ & _ & _ & _ & _ & Hlen).
